@@ -356,28 +356,29 @@ func (v *Vue) exprEnv(ctx VueContext, expression string) map[string]any {
 	if !strings.Contains(expression, "(") {
 		return env
 	}
-	for name, fn := range v.funcMap {
-		if _, isVar := env[name]; isVar || !strings.Contains(expression, name) {
-			continue
-		}
-		name, fn := name, fn
-		env[name] = func(args ...any) (any, error) {
-			res, err := v.callFunc(&ctx, fn, args...)
-			if err != nil {
-				return nil, &funcCallError{name: name, err: err}
-			}
-			return res, nil
-		}
-	}
-	// A called name that is neither a variable, a registered function nor a function of the
-	// expression library: calling it fails, naming it (not with "cannot call nil")
+	// (only names that are called: a variable that merely shares its name with a registered
+	// function - title, type, default - stays undefined when the data does not have it)
 	for _, name := range calledNames(helpers.MaskQuoted(expression)) {
-		if _, known := env[name]; known || exprKnowsFunction(name) {
+		if _, isVar := env[name]; isVar {
 			continue
 		}
 		name := name
-		env[name] = func(args ...any) (any, error) {
-			return nil, &funcCallError{name: name, err: fmt.Errorf("function '%s' not found", name)}
+		if fn, registered := v.funcMap[name]; registered {
+			env[name] = func(args ...any) (any, error) {
+				res, err := v.callFunc(&ctx, fn, args...)
+				if err != nil {
+					return nil, &funcCallError{name: name, err: err}
+				}
+				return res, nil
+			}
+			continue
+		}
+		// A called name that is neither a variable, a registered function nor a function of the
+		// expression library: calling it fails, naming it (not with "cannot call nil")
+		if !exprKnowsFunction(name) {
+			env[name] = func(args ...any) (any, error) {
+				return nil, &funcCallError{name: name, err: fmt.Errorf("function '%s' not found", name)}
+			}
 		}
 	}
 	return env
